@@ -16,6 +16,9 @@ static inline bool nondet_bool() { return (nondet_int() & 1) != 0; }
 #ifndef MA_ND
 #error "MA_ND, MA_NIN, MA_NBODY, MA_NMATCH, MA_RS, MA_PMAX, MA_CT, MA_NERR must be defined by the job"
 #endif
+#ifndef MA_NDEF
+#define MA_NDEF MA_ND
+#endif
 #ifndef MA_NLOG
 #define MA_NLOG (MA_ND * (MA_PMAX + 1))     /* detect() calls a run can make if it overruns its budget by one pass */
 #endif
@@ -150,13 +153,19 @@ static bool splice_eq(const std::vector<Token> &cur, int loc, int len, const std
 
 static void run_selection(unsigned passes, bool adversarial) {
   Log L; L.n = 0; L.overflow = 0; L.ctor_calls = 0; L.adversarial = adversarial; G = &L;
-  // ---- symbolic definitions in symbolic order of definition (priorities and bodies are arbitrary per position)
-  int nd = sym_range(0, MA_ND); CEX_nd = nd;
+  // ---- the definitions, in order of definition.  Bodies, pattern lines and the slot that $0 names are symbolic; the number of definitions,
+  // their priorities and which of them the table generator rejects are CONSTANTS of the job (MA_NDEF, MA_PRIOS, MA_CONF): the family of
+  // jobs enumerates every order pattern of the priorities over the definition positions (std::map only compares keys), so "independent
+  // of the order of definition" is covered by the family; with symbolic priorities the priority bins become a symbolic heap shape that
+  // CBMC does not decide within the budget (measured: 2 definitions, 2 input tokens: 460 s / 10 GB against 30 s).
+  static const int PRIOS[MA_ND + 1] = MA_PRIOS; static const int CONF[MA_ND + 1] = MA_CONF;
+  const int nd = MA_NDEF; CEX_nd = nd;
   std::vector<MacroDefinition> defs; int prio[MA_ND]; bool usable[MA_ND]; int nusable = 0, nconf = 0;
   for (int i = 0; i < MA_ND; i++) {
-    L.conflict[i] = nondet_bool(); usable[i] = false; prio[i] = 0;
+    L.conflict[i] = 0; usable[i] = false; prio[i] = 0;
     if (i < nd) {
-      MacroDefinition d; sym_definition(d, i); defs.push_back(d); prio[i] = d.priority; usable[i] = !L.conflict[i];
+      L.conflict[i] = CONF[i];
+      MacroDefinition d; sym_definition(d, i); d.priority = PRIOS[i]; defs.push_back(d); prio[i] = d.priority; usable[i] = !L.conflict[i];
       if (usable[i]) nusable++; else nconf++;
       CEX_nbody[i] = d.replacement.n;
     }
@@ -279,18 +288,3 @@ extern "C" void h_adversarial() {
   run_selection(passes, true);
   ASSERT(0, "WITNESS: end of h_adversarial reachable");
 }
-
-#ifdef MA_DEBUG
-extern "C" void h_dbg1() {
-  Log L; L.n = 0; L.overflow = 0; L.ctor_calls = 0; L.adversarial = 0; G = &L;
-  std::vector<MacroDefinition> defs;
-  for (int i = 0; i < MA_ND; i++) { L.conflict[i] = nondet_bool(); MacroDefinition d; sym_definition(d, i); defs.push_back(d); }
-  std::vector<Token> input; int nin = sym_range(0, MA_NIN);
-  { Token eof(Token::T_EOF, std::string(""), std::string("m"), sym_range(0, 99));
-    for (int i = 0; i <= MA_NIN; i++) { Token t = sym_plain_token(); if (i == nin) t = eof; TOKV_SET(input, i, t); }
-    input.n = nin + 1; }
-  MacroApplicationResult res = Theo::apply_macros(input, defs, 1);
-  ASSERT(res.transformed_sequence.n >= 1, "C09: dbg");
-  ASSERT(0, "WITNESS: end of h_dbg1 reachable");
-}
-#endif
